@@ -1012,6 +1012,7 @@ def asm_prog_nodes(arg: dict) -> dict:
     write_files(files)
     ev: dict = {}
     order: list = []
+    untraced: list = []
 
     class TracingParser(MZParser):
         def parse(self, program, filename=""):
@@ -1029,7 +1030,16 @@ def asm_prog_nodes(arg: dict) -> dict:
                         bs = em(cur)
                         order.append(("e", idx, cur.logical_value, len(bs) if bs else 0))
                         return bs
-                    node.pc_after, node.emit = pc_after, emit
+                    try:
+                        node.pc_after, node.emit = pc_after, emit
+                    except AttributeError:
+                        # no instance dictionary (__slots__): a per-node subclass with the same layout
+                        cls = type(node)
+                        try:
+                            node.__class__ = type(cls.__name__, (cls,), {"__slots__": (), "pc_after": lambda self, cur: pc_after(cur),
+                                                                          "emit": lambda self, cur: emit(cur)})
+                        except TypeError:
+                            untraced.append(idx)
                 wrap()
             return err, nodes
 
@@ -1059,6 +1069,7 @@ def asm_prog_nodes(arg: dict) -> dict:
             ev.setdefault(idx, {})["in3"] = a
             ev[idx]["n3"] = b
     out["nodes"] = [{"i": i, **v} for i, v in sorted(ev.items()) if "in1" in v and "in3" in v]
+    out["untraced"] = len(untraced)
     return out
 
 
